@@ -349,6 +349,49 @@ def run_shard(arg):
     return part.result()
 
 
+# ---- the write as an argument of a built-in function: every built-in x every argument position ---------------------------------
+def run_builtins(_):
+    sys.path.insert(0, os.path.join(os.path.dirname(os.path.abspath(__file__)), "..", "lib"))
+    import exprgen as G
+    part = engine.Part()
+    w = engine.worker("fast")
+    fns = dict(G.BUILTIN_ALL)
+    fns.update(G.BUILTIN)
+    cells_ = []
+    for key, (name, arity) in sorted(fns.items()):
+        for pos in range(arity):
+            for wid, wr in (("assign", "(t = 2)"), ("increment", "t++"), ("array-element", "(ta[1] = 2)"), ("through-reference", "bump(t)")):
+                args = ["1.0"] * arity
+                args[pos] = wr
+                stmt = "dsink = %s(%s)" % (name, ", ".join(args))
+                for where in ("update", "function-body"):
+                    docs = []
+                    for c in ("const ", ""):
+                        g = "double dsink; int bump(int &r) { r = r + 1; return r; }\n%sint t = 1; %sint ta[2] = {1, 2};\n" % (c, c)
+                        if where == "update":
+                            docs.append(model(gdecl=g, assign=stmt))
+                        else:
+                            docs.append(model(gdecl=g + "void fn() { %s; }" % stmt, assign="fn()"))
+                    cells_.append(("builtin-argument:%s:arg%d:%s:%s" % (name, pos + 1, wid, where), docs[0], docs[1]))
+    res_c = X.run_docs(w, [c[1] for c in cells_], want=["noinv"], batch=50)
+    res_t = X.run_docs(w, [c[2] for c in cells_], want=["noinv"], batch=50)
+    for (cid, dc, dt), rc, rt in zip(cells_, res_c, res_t):
+        part.count()
+        rp = {"op": "xml", "buf": dc, "twin": dt}
+        if engine.check_crash(part, PID, rc, cid, rp) or engine.check_crash(part, PID, rt, cid, rp):
+            continue
+        if not X.accepted(rt):
+            part.outcome("builtin-form-not-valid-for-a-variable")      # (e.g. an integer where the function wants something else)
+            continue
+        part.nontrivial_case(cid)
+        if X.accepted(rc):
+            part.outcome("const-write-accepted")
+            part.violation("const-write-accepted:" + cid, "%s: a write to a constant inside the argument of a built-in function is accepted" % cid, rp)
+        else:
+            part.outcome("const-write-rejected")
+    return part.result()
+
+
 def main():
     total = sum(1 for _ in cells())
     rep = engine.Report(PID, "exploration",
@@ -368,6 +411,7 @@ def main():
     for res in engine.pmap(run_composites, [(i, n) for i in range(n)]):
         rep.merge(res)
     rep.merge(run_dynamic(None))
+    rep.merge(run_builtins(None))
     rep.extra["composite_cells"] = sum(1 for c in composite_cells() if c[1] != "decl")
     rep.assumptions = ["quantifier binders have no mutable twin (a write inside a quantified body is rejected for C11's reason)",
                        "small scope: the listed shapes and write forms"]
